@@ -63,3 +63,37 @@ where
         }
     })
 }
+
+/// Long inputs: every pattern of 1..=k symbols repeated r times, for every r in `reps` (the
+/// enumeration is exhaustive over pattern × repetition count; it reaches the lengths at which
+/// buffers, windows and counters of an implementation wrap or flush).
+pub fn all_repetitions<F>(alphabet: &[String], k: usize, reps: std::ops::RangeInclusive<usize>, f: F) -> Acc
+where
+    F: Fn(&[&str], &mut Acc) + Sync + Send,
+{
+    let n = alphabet.len();
+    let mut shards: Vec<(usize, usize)> = vec![];
+    for first in 0..n {
+        let mut lo = *reps.start();
+        while lo <= *reps.end() {
+            let hi = (lo + 15).min(*reps.end());
+            shards.push((first, lo * 1_000_000 + hi));
+            lo = hi + 1;
+        }
+    }
+    par_shards(shards, |&(first, range), acc| {
+        let (lo, hi) = (range / 1_000_000, range % 1_000_000);
+        let mut syms: Vec<&str> = vec![];
+        for_each_seq(n, k, first, &mut |idx| {
+            for r in lo..=hi {
+                syms.clear();
+                for _ in 0..r {
+                    for &i in idx {
+                        syms.push(alphabet[i].as_str());
+                    }
+                }
+                f(&syms, acc);
+            }
+        });
+    })
+}
